@@ -1,5 +1,6 @@
 (* C04 model driver.  Case line = the harness case line (m= c= n= enc= ent= fun= tags= repl= in=) followed by
    the oracle table printed by the harness: F=<k>:<valuehex>:<0|1>,..  E=<texthex>:<valid>:<vof>:<filteredhex>,..
+   A=<is_ascii_compatible>  U=<texthex>:<stop ok>:<to_utf stop hex>:<to_utf skip hex>,..  V=<utf8hex>:<ok>:<from_utf hex>,..
    Answer: v= fl= rm= es= vrm= ves=   (same fields as the harness prints before " | ") *)
 exception Missing of string
 let split_on c s = if s = "-" || s = "" then [] else String.split_on_char c s
@@ -18,13 +19,50 @@ let () = main_loop (fun toks ->
   List.iter (fun e -> match String.split_on_char ':' e with
      | [t; ev; vof; fo] -> Hashtbl.replace enc_tbl t (ev = "1", vof = "1", fo)
      | _ -> failwith "bad E entry") (split_on ',' (field fs "E"));
+  let s_tbl = Hashtbl.create 16 in
+  List.iter (fun e -> match String.split_on_char ':' e with
+     | [k; v; b] -> Hashtbl.replace s_tbl (int_of_string k, v) (b = "1")
+     | _ -> failwith "bad S entry") (split_on ',' (field fs "S"));
+  let specs = Array.of_list (List.map (fun h -> let b = bytes_of_hex h in
+      String.init (List.length b) (fun i -> Char.chr (int_of_n (List.nth b i)))) (split_on ',' (field fs "fun"))) in
+  let starts_with p s = String.length s >= String.length p && String.sub s 0 (String.length p) = p in
+  (* regex validators: answered by the table; URI validators: the model of uri_parser, only the scheme regular
+     expression is answered by the table; the verdict is cross-checked against what the real validator said *)
   let vfun k v =
-    let key = (int_of_n k, hex_of_bytes v) in
-    try Hashtbl.find funs_tbl key with Not_found -> raise (Missing ("F " ^ string_of_int (fst key) ^ ":" ^ snd key)) in
+    let ki = int_of_n k in
+    let key = (ki, hex_of_bytes v) in
+    let spec = if ki < Array.length specs then specs.(ki) else "" in
+    let sre sc = (try Hashtbl.find s_tbl (ki, hex_of_bytes sc)
+                  with Not_found -> raise (Missing ("S " ^ string_of_int ki ^ ":" ^ hex_of_bytes sc))) in
+    let ukind = if spec = "uri" || starts_with "uris:" spec then Some UBoth
+                else if starts_with "abs:" spec then Some UFull
+                else if spec = "rel" then Some URelative else None in
+    match ukind with
+    | None -> (try Hashtbl.find funs_tbl key with Not_found -> raise (Missing ("F " ^ string_of_int ki ^ ":" ^ snd key)))
+    | Some uk ->
+        let m = uri_validate (field fs "pf" = "1") uk (if uk = URelative then (fun _ -> false) else sre) v in
+        (match Hashtbl.find_opt funs_tbl key with
+         | Some b when b <> m -> failwith ("URI-MODEL-DIFFERS validator " ^ string_of_int ki ^ " value " ^ snd key)
+         | _ -> m) in
   let has_enc = field fs "enc" <> "-" in
   let enc_valid x = let (ev, _, _) = (try Hashtbl.find enc_tbl (hex_of_bytes x) with Not_found -> raise (Missing ("E " ^ hex_of_bytes x))) in ev in
   let enc_vof x = let (_, vof, fo) = (try Hashtbl.find enc_tbl (hex_of_bytes x) with Not_found -> raise (Missing ("E " ^ hex_of_bytes x))) in
     if vof then None else Some (bytes_of_hex fo) in
+  let compat = field fs "A" <> "0" in
+  let u_tbl = Hashtbl.create 8 in
+  List.iter (fun e -> match String.split_on_char ':' e with
+     | [t; ok; st; sk] -> Hashtbl.replace u_tbl t (ok = "1", st, sk)
+     | _ -> failwith "bad U entry") (split_on ',' (field fs "U"));
+  let v_tbl = Hashtbl.create 8 in
+  List.iter (fun e -> match String.split_on_char ':' e with
+     | [t; ok; back] -> Hashtbl.replace v_tbl t (ok = "1", back)
+     | _ -> failwith "bad V entry") (split_on ',' (field fs "V"));
+  let u_find x = try Hashtbl.find u_tbl (hex_of_bytes x) with Not_found -> raise (Missing ("U " ^ hex_of_bytes x)) in
+  let to_utf_stop x = let (ok, st, _) = u_find x in if ok then Some (bytes_of_hex st) else None in
+  let to_utf_skip x = let (_, _, sk) = u_find x in bytes_of_hex sk in
+  let from_utf_stop x =
+    let (ok, back) = (try Hashtbl.find v_tbl (hex_of_bytes x) with Not_found -> raise (Missing ("V " ^ hex_of_bytes x))) in
+    if ok then Some (bytes_of_hex back) else None in
   let kind_of = function "1" -> TPair | "2" -> TAlone | "3" -> TAny | _ -> TInvalid in
   let tags = List.map (fun t ->
       match String.split_on_char ':' t with
@@ -44,10 +82,10 @@ let () = main_loop (fun toks ->
   let r = { c_xhtml = xhtml; c_comments = (field fs "c" = "1"); c_numeric = (field fs "n" = "1");
             c_entities = List.map bytes_of_hex (split_on ',' (field fs "ent")); c_tags = tags } in
   let x = bytes_of_hex (field fs "in") in
-  let v = c_validate r vfun has_enc enc_valid x in
-  let (fl, rm) = c_validate_and_filter r vfun has_enc enc_vof RemoveInvalid x in
-  let (fl2, es) = c_validate_and_filter r vfun has_enc enc_vof EscapeInvalid x in
-  let vrm = c_validate r vfun has_enc enc_valid rm in
-  let ves = c_validate r vfun has_enc enc_valid es in
+  let v = c_validate_x r vfun has_enc compat enc_valid to_utf_stop x in
+  let (fl, rm) = c_validate_and_filter_x r vfun has_enc compat enc_vof to_utf_stop to_utf_skip from_utf_stop RemoveInvalid x in
+  let (fl2, es) = c_validate_and_filter_x r vfun has_enc compat enc_vof to_utf_stop to_utf_skip from_utf_stop EscapeInvalid x in
+  let vrm = c_validate_x r vfun has_enc compat enc_valid to_utf_stop rm in
+  let ves = c_validate_x r vfun has_enc compat enc_valid to_utf_stop es in
   "v=" ^ string_of_bool v ^ " fl=" ^ string_of_bool fl ^ " rm=" ^ hex_of_bytes rm ^ " es=" ^ hex_of_bytes es
   ^ " vrm=" ^ string_of_bool vrm ^ " ves=" ^ string_of_bool ves ^ (if fl <> fl2 then " MODEL-FLAGS-DIFFER" else ""))
